@@ -43,6 +43,7 @@ func c18Dispatch(c *Ctx) {
 	// manual registration of TRACE
 	p := ref.Pick(r, pool)
 	before := s.CompareRoutes()
+	verdict, _ := s.Verdict(p, []string{"TRACE"})
 	ok, _, _ := s.Handle(p, []string{"TRACE"}, Via{})
 	c.Eval()
 	if withTrace {
@@ -63,7 +64,7 @@ func c18Dispatch(c *Ctx) {
 			if e := s.Live[p]; e != nil && e.M["TRACE"] != nil {
 				wasLive = true
 			}
-			if !wasLive {
+			if !wasLive && verdict == MustAccept {
 				c.Violate("TRACE could not be registered although no TRACE handler is configured", map[string]any{"pattern": p, "live": s.ExpectRoutes()})
 				return
 			}
